@@ -167,8 +167,8 @@ func c15DedupSort(p *chk.Prog, r *chk.Report) {
 	pfx := definedBy(g, "A.Prefix.String()", chk.H("A", adv))
 	appAllowed := f.IsAssignPat("N.ToAdvertise.Allowed.Prefixes", "append(N.ToAdvertise.Allowed.Prefixes, P)", chk.H("P", pfx))
 	routerPfx := f.IsAssignPat("R.prefixes[P]", "P", chk.H("P", pfx))
-	x.Check("updateConfig:every-advertisement-allowed", advLoop.Pos(), !loopSkipsWithout(g, advLoop, appAllowed, nil) && !loopHasBreak(g, advLoop), "", "an advertisement of the session can be left out of the neighbour's allowed prefixes")
-	x.Check("updateConfig:every-advertisement-originated", advLoop.Pos(), !loopSkipsWithout(g, advLoop, routerPfx, nil), "", "an advertised prefix is not added to the router's prefixes (it would be allowed but never originated)")
+	x.Check("updateConfig:every-advertisement-allowed", advLoop.Pos(), !loopSkipsWithout(g, advLoop, appAllowed, chk.NoGuard) && !loopHasBreak(g, advLoop), "", "an advertisement of the session can be left out of the neighbour's allowed prefixes")
+	x.Check("updateConfig:every-advertisement-originated", advLoop.Pos(), !loopSkipsWithout(g, advLoop, routerPfx, chk.NoGuard), "", "an advertised prefix is not added to the router's prefixes (it would be allowed but never originated)")
 	// dedup + sort before store
 	stores := g.Find(f.IsAssignPat("R.neighbors[K]", "N"))
 	x.Check("updateConfig:neighbour-store", sessLoop.Pos(), len(stores) == 1, "", "expected one rout.neighbors[name] = neighbor")
@@ -257,7 +257,7 @@ func c15DedupSort(p *chk.Prog, r *chk.Report) {
 				}
 				return hasKey && hasDedup
 			}
-			ok = !loopSkipsWithout(tg, rs, app, nil) && !loopSkipsWithout(tg, rs, srt, nil)
+			ok = !loopSkipsWithout(tg, rs, app, chk.NoGuard) && !loopSkipsWithout(tg, rs, srt, chk.NoGuard)
 			// sort precedes the dedup in the body
 			for _, s := range tg.Find(app) {
 				w := tg.MustPass(bodyStart(tg, rs), func(n ast.Node) bool { return n == s.Top }, false, srt)
